@@ -179,7 +179,7 @@ int mc_explore(const MCKind *k)
         int use_snap = k->world != NULL;
         int audit = use_snap && (qi % 8 == 3);
         static uint8_t *wsnap; static size_t wsnap_cap;
-        static uint64_t succ1[4096], succ2[4096];
+        static uint64_t succ1[8192], succ2[8192];
 
         /* materialise the state: full replay of its history on fresh objects */
         k->reset();
@@ -195,7 +195,7 @@ int mc_explore(const MCKind *k)
             memcpy(wsnap, k->world, k->world_size);
             arena_snapshot();
         }
-        if (k->nops > 4096) engine_error("alphabet too large for the audit table");
+        if (k->nops > 8192) engine_error("alphabet too large for the audit table");
 
         for (op = 0; op < k->nops; ++op) {
             if (op > 0) {
